@@ -64,7 +64,7 @@ Proof. unfold cread; destruct (c_segs c); [congruence|]; intros _ H; inversion H
 Lemma cread_drained c n d e c' :
   c_segs c = [] -> cread c n = (d, e, c') ->
   d = [] /\ c_segs c' = [] /\
-  e = match c_term c with TEof => EEOF | TZero => ENone | TTimeout => ETimeout end.
+  e = match c_term c with TEof => EEOF | TTimeout => ETimeout end.
 Proof.
   unfold cread; intros ->; destruct (c_term c); intros H; inversion H; subst; cbn; auto.
 Qed.
@@ -86,12 +86,9 @@ Proof.
     + apply (cread_progress c (S n) d e c'); [lia|congruence|exact H].
 Qed.
 
-Lemma cread_zero_never_fails c n d e c' :
-  c_term c = TZero -> cread c n = (d, e, c') -> e = ENone.
+Lemma cread_drained_fails c n d e c' : c_segs c = [] -> cread c n = (d, e, c') -> e <> ENone.
 Proof.
-  intros Ht H; destruct (c_segs c) eqn:E.
-  - destruct (cread_drained _ _ _ _ _ E H) as (_ & _ & ->); rewrite Ht; reflexivity.
-  - eapply cread_pending; eauto; congruence.
+  intros Es E; destruct (cread_drained _ _ _ _ _ Es E) as (_ & _ & ->); destruct (c_term c); congruence.
 Qed.
 
 Lemma cread_timeouts c n d e c' :
@@ -119,46 +116,19 @@ Proof. reflexivity. Qed.
 (* ------------------------------------------------------------------ *)
 (* io.Copy *)
 
-Lemma io_copy_zero_spins fuel wr c :
-  c_term c = TZero -> fst (io_copy fuel wr c) = OutOfFuel.
-Proof.
-  revert c; induction fuel as [|f IH]; intros c Ht; cbn [io_copy]; [reflexivity|].
-  destruct (cread c COPYSZ) as [[d e] c1] eqn:E.
-  pose proof (cread_zero_never_fails _ _ _ _ _ Ht E) as ->.
-  pose proof (cread_term _ _ _ _ _ E) as Ht1.
-  apply IH. destruct d; [|destruct wr]; rewrite ?cwrite_term; congruence.
-Qed.
-
-(* ... and every round of the loop is one more Read *)
-Lemma io_copy_zero_reads fuel wr c :
-  c_term c = TZero ->
-  m_reads (c_m (snd (io_copy fuel wr c))) = (m_reads (c_m c) + N.of_nat fuel)%N.
-Proof.
-  revert c; induction fuel as [|f IH]; intros c Ht; cbn [io_copy]; [cbn; lia|].
-  destruct (cread c COPYSZ) as [[d e] c1] eqn:E.
-  pose proof (cread_zero_never_fails _ _ _ _ _ Ht E) as ->.
-  pose proof (cread_term _ _ _ _ _ E) as Ht1.
-  pose proof (cread_reads _ _ _ _ _ E) as Hr.
-  rewrite IH.
-  - destruct d; [|destruct wr]; cbn [cwrite c_m m_reads]; lia.
-  - destruct d; [|destruct wr]; rewrite ?cwrite_term; congruence.
-Qed.
-
 Lemma io_copy_returns fuel wr c :
-  c_term c <> TZero -> (weight c < fuel)%nat -> fst (io_copy fuel wr c) = Returned.
+  (weight c < fuel)%nat -> fst (io_copy fuel wr c) = Returned.
 Proof.
-  revert c; induction fuel as [|f IH]; intros c Ht Hw; [lia|]; cbn [io_copy].
+  revert c; induction fuel as [|f IH]; intros c Hw; [lia|]; cbn [io_copy].
   destruct (cread c COPYSZ) as [[d e] c1] eqn:E.
   pose proof (cread_term _ _ _ _ _ E) as Ht1.
   destruct (c_segs c) eqn:Es.
   - destruct (cread_drained _ _ _ _ _ Es E) as (-> & _ & ->).
-    destruct (c_term c); try congruence; reflexivity.
+    destruct (c_term c); reflexivity.
   - assert (e = ENone) as -> by (eapply cread_pending; eauto; congruence).
     assert (weight c1 < weight c)%nat
       by (apply (cread_progress c COPYSZ d ENone c1); [pose proof COPYSZ_pos; lia|congruence|exact E]).
-    apply IH.
-    + destruct d; [|destruct wr]; rewrite ?cwrite_term; congruence.
-    + destruct d; [|destruct wr]; rewrite ?cwrite_weight; lia.
+    apply IH. destruct d; [|destruct wr]; rewrite ?cwrite_weight; lia.
 Qed.
 
 Lemma io_copy_one_deadline fuel wr c :
@@ -211,20 +181,6 @@ Proof.
     + intros H; inversion H; subst. destruct (cread_err_nodata _ _ _ _ _ E) as [-> _]; [congruence|].
       rewrite app_nil_r; cbn [length] in Hp. repeat split; try lia; congruence.
     + congruence.
-Qed.
-
-(* the cut-off: on a drained datagram connection fill gives up after exactly [i] empty reads *)
-Lemma fill_loop_drained_zero i buf c :
-  c_segs c = [] -> c_term c = TZero ->
-  exists c', fill_loop i buf c = (buf, ENoProgress, c') /\ c_segs c' = [] /\ c_term c' = TZero /\
-             m_zero (c_m c') = (m_zero (c_m c) + N.of_nat i)%N /\
-             m_reads (c_m c') = (m_reads (c_m c) + N.of_nat i)%N.
-Proof.
-  revert c; induction i as [|i IH]; intros c Hs Ht; cbn [fill_loop].
-  - exists c; repeat split; auto; lia.
-  - unfold cread; rewrite Hs, Ht.
-    destruct (IH (mkConn [] TZero (tick_read (c_m c) true false false)) eq_refl eq_refl) as (c' & H1 & H2 & H3 & H4 & H5).
-    exists c'; rewrite H1; repeat split; auto; cbn [c_m tick_read m_zero m_reads] in *; lia.
 Qed.
 
 Lemma fill_spec b :
@@ -498,16 +454,15 @@ Proof.
   destruct (bread b2 512) as [[? e3] b3]. destruct e3; reflexivity.
 Qed.
 
-(* a Read through bufio that neither fails nor makes progress needs the (0, nil) wrapper *)
+(* a Read through bufio either fails or makes progress *)
 Lemma bread_progress b n d b' :
-  (0 < n)%nat -> c_term (b_c b) <> TZero -> bread b n = (d, ENone, b') -> (pot b' < pot b)%nat.
+  (0 < n)%nat -> bread b n = (d, ENone, b') -> (pot b' < pot b)%nat.
 Proof.
-  intros Hn Ht; unfold bread, pot.
+  intros Hn; unfold bread, pot.
   assert (forall m d0 e0 c', (0 < m)%nat -> cread (b_c b) m = (d0, e0, c') -> e0 = ENone ->
                              (weight c' < weight (b_c b))%nat) as Hcr.
   { intros m d0 e0 c' Hm E He. destruct (c_segs (b_c b)) eqn:Es.
-    - destruct (cread_drained _ _ _ _ _ Es E) as (_ & _ & Hx). rewrite Hx in He.
-      destruct (c_term (b_c b)); congruence.
+    - exfalso; apply (cread_drained_fails _ _ _ _ _ Es E); exact He.
     - apply (cread_progress (b_c b) m d0 e0 c'); auto; congruence. }
   destruct (b_buf b) as [|x buf] eqn:Eb.
   - destruct (b_err b) eqn:Ee; try (intros H; inversion H; fail).
@@ -523,11 +478,11 @@ Proof.
 Qed.
 
 Lemma read_full_spec fuel want got b :
-  b_err b <> EBufFull -> c_term (b_c b) <> TZero -> (pot b + 1 <= fuel)%nat ->
+  b_err b <> EBufFull -> (pot b + 1 <= fuel)%nat ->
   exists n e b', read_full fuel want got b = Some (n, e, b') /\
     (pot b' <= pot b)%nat /\ b_err b' <> EBufFull /\ c_term (b_c b') = c_term (b_c b).
 Proof.
-  revert got b; induction fuel as [|f IH]; intros got b Hnf Ht Hp; [lia|].
+  revert got b; induction fuel as [|f IH]; intros got b Hnf Hp; [lia|].
   cbn [read_full]. destruct (want <=? got)%nat eqn:Ew.
   - eexists _, _, _; split; [reflexivity|]. repeat split; auto.
   - apply Nat.leb_gt in Ew.
@@ -535,34 +490,20 @@ Proof.
     destruct (bread_spec _ _ _ _ _ Hnf E) as (B1 & B2 & B3).
     destruct e; try (eexists _, _, _; split; [reflexivity|]; repeat split; auto).
     assert (pot b1 < pot b)%nat by (apply (bread_progress b (want - got) d b1); auto; lia).
-    destruct (IH (got + length d)%nat b1) as (n & e & b2 & H2 & R1 & R2 & R3); [exact B2|congruence|lia|].
+    destruct (IH (got + length d)%nat b1) as (n & e & b2 & H2 & R1 & R2 & R3); [exact B2|lia|].
     exists n, e, b2; split; [exact H2|]. split; [lia|]. split; [exact R2|congruence].
 Qed.
 
-(* ... and behind the drained datagram wrapper io.ReadFull over bufio never ends *)
-Lemma read_full_drained_zero fuel want got b :
-  b_buf b = [] -> b_err b = ENone -> c_segs (b_c b) = [] -> c_term (b_c b) = TZero ->
-  (got < want)%nat -> read_full fuel want got b = None.
-Proof.
-  revert got b; induction fuel as [|f IH]; intros got b Hb He Hs Ht Hg; cbn [read_full].
-  - replace (want <=? got)%nat with false by (symmetry; apply Nat.leb_gt; lia). reflexivity.
-  - replace (want <=? got)%nat with false by (symmetry; apply Nat.leb_gt; lia).
-    unfold bread; rewrite Hb, He. destruct (BUFSZ <=? want - got)%nat.
-    + unfold cread; rewrite Hs, Ht. cbn [length]. rewrite Nat.add_0_r. apply IH; auto.
-    + unfold cread; rewrite Hs, Ht. cbn [length]. rewrite Nat.add_0_r. apply IH; auto.
-Qed.
-
 Lemma mc_loop_returns fuel udp tokens b :
-  b_err b <> EBufFull -> c_term (b_c b) <> TZero -> (pot b + 3 <= fuel)%nat ->
+  b_err b <> EBufFull -> (pot b + 3 <= fuel)%nat ->
   fst (mc_loop fuel udp tokens b) = Returned.
 Proof.
-  revert tokens b; induction fuel as [|f IH]; intros tokens b Hnf Htz Hp; [lia|]. cbn [mc_loop].
+  revert tokens b; induction fuel as [|f IH]; intros tokens b Hnf Hp; [lia|]. cbn [mc_loop].
   destruct (read_bytes_spec (S f) 10 [] b Hnf Hp) as (line & e & b1 & H & P1 & P2 & P3 & P4 & P5).
   rewrite H. destruct e; try reflexivity; try congruence.
   specialize (P2 eq_refl).
-  assert (c_term (b_c b1) <> TZero) as Htz1 by congruence.
   assert (forall k t, fst (mc_loop f udp t (bwrite b1 k)) = Returned) as Hgo.
-  { intros k t; apply IH; [rewrite bwrite_err; exact P4|rewrite bwrite_term; exact Htz1|rewrite bwrite_pot; lia]. }
+  { intros k t; apply IH; [rewrite bwrite_err; exact P4|rewrite bwrite_pot; lia]. }
   set (cmd := if (2 <=? length line)%nat then firstn (length line - 2) line else line).
   assert (fst
     (let tokens' := if udp then Nat.pred tokens else tokens in
@@ -598,18 +539,18 @@ Proof.
     destruct (_ <? 5)%nat; [reflexivity|].
     destruct (atoi _) as [v|]; [|reflexivity].
     destruct (v <? 0); [reflexivity|].
-    destruct (read_full_spec (S f) (Z.to_nat (Z.min v 80)) 0 b1 P4 Htz1) as (n & e & b2 & Hr & R1 & R2 & R3); [lia|].
+    destruct (read_full_spec (S f) (Z.to_nat (Z.min v 80)) 0 b1 P4) as (n & e & b2 & Hr & R1 & R2 & R3); [lia|].
     rewrite Hr.
     destruct (negb (is_enone e) && (n =? 0)%nat && (0 <? v)); [reflexivity|].
     destruct (discard_spec (S f) (v - Z.of_nat n + 2) b2 R2) as (b3 & Hd & D1 & D2 & D3); [lia|].
-    rewrite Hd. apply IH; [rewrite bwrite_err; exact D2|rewrite bwrite_term; congruence|rewrite bwrite_pot; lia]. }
+    rewrite Hd. apply IH; [rewrite bwrite_err; exact D2|rewrite bwrite_pot; lia]. }
   destruct udp; [destruct tokens; [reflexivity|]|]; exact Hbody.
 Qed.
 
 Lemma handle_memcached_returns udp fuel c :
-  c_term c <> TZero -> (weight c + 3 <= fuel)%nat -> h_out (handle_memcached udp fuel c) = Returned.
+  (weight c + 3 <= fuel)%nat -> h_out (handle_memcached udp fuel c) = Returned.
 Proof.
-  intros Htz Hf; unfold handle_memcached.
+  intros Hf; unfold handle_memcached.
   set (b1 := if udp then let '(_, _, b') := bread (new_reader c) 8 in b' else new_reader c).
   assert (b_err b1 <> EBufFull /\ (pot b1 <= weight c)%nat /\ c_term (b_c b1) = c_term c) as (A1 & A2 & A3).
   { subst b1; destruct udp.
@@ -617,27 +558,30 @@ Proof.
       destruct (bread_spec _ _ _ _ _ (new_reader_err c) E) as (B1 & B2 & B3).
       rewrite pot_new_reader in B1; auto.
     - split; [cbn; congruence|split; [rewrite pot_new_reader; lia|reflexivity]]. }
-  pose proof (mc_loop_returns fuel udp 4 b1 A1 ltac:(congruence) ltac:(lia)) as H.
+  pose proof (mc_loop_returns fuel udp 4 b1 A1 ltac:(lia)) as H.
   destruct (mc_loop fuel udp 4 b1) as [o b2]; cbn [fst h_out] in *; exact H.
 Qed.
 
-(* ftp: the control loop always ends - by returning, by a recovered panic, or by blocking
-   for ever in a data command; it never spins *)
+(* ftp: the control loop always ends: it returns, or panics (PASV on an IPv6 local address)
+   and is recovered, or the dialogue leaves the modelled command set; it neither spins nor
+   waits for ever *)
+Definition ftp_end (o : outcome) : Prop := o = Returned \/ o = Panicked \/ o = Unmodelled.
+
 Lemma ftp_loop_ends fuel v6 dial s b :
   b_err b <> EBufFull -> (pot b + 3 <= fuel)%nat ->
-  fst (fst (ftp_loop fuel v6 dial s b)) <> OutOfFuel.
+  ftp_end (fst (fst (ftp_loop fuel v6 dial s b))).
 Proof.
   revert s b; induction fuel as [|f IH]; intros s b Hnf Hp; [lia|]. cbn [ftp_loop].
   destruct (read_bytes_spec (S f) 10 [] b Hnf Hp) as (line & e & b1 & H & P1 & P2 & P3 & P4 & P5).
-  rewrite H. destruct e; cbn [fst]; try congruence.
+  rewrite H. unfold ftp_end. destruct e; cbn [fst]; auto; try congruence.
   specialize (P2 eq_refl).
   destruct (ftp_cmd v6 dial s line) as [st k].
-  destruct st; cbn [fst]; try congruence.
+  destruct st; cbn [fst]; auto.
   apply IH; [rewrite nwrites_err; exact P4|rewrite nwrites_pot; lia].
 Qed.
 
 Lemma handle_ftp_ends v6 dial fuel c :
-  (weight c + 3 <= fuel)%nat -> h_out (handle_ftp v6 dial fuel c) <> OutOfFuel.
+  (weight c + 3 <= fuel)%nat -> ftp_end (h_out (handle_ftp v6 dial fuel c)).
 Proof.
   intros Hf; unfold handle_ftp, handle_ftp_st.
   pose proof (ftp_loop_ends fuel v6 dial ftp_init (bwrite (new_reader c) 0)) as H.
@@ -680,27 +624,27 @@ Qed.
 (* adb: reads the connection directly *)
 
 Lemma adb_loop_ends fuel b4 cb c :
-  c_term c <> TZero -> (weight c < fuel)%nat -> finished (fst (adb_loop fuel b4 cb c)) = true.
+  (weight c < fuel)%nat -> finished (fst (adb_loop fuel b4 cb c)) = true.
 Proof.
-  revert b4 cb c; induction fuel as [|f IH]; intros b4 cb c Ht Hw; [lia|]. cbn [adb_loop].
+  revert b4 cb c; induction fuel as [|f IH]; intros b4 cb c Hw; [lia|]. cbn [adb_loop].
   destruct (cread c ADBSZ) as [[d e] c1] eqn:E.
   pose proof (cread_term _ _ _ _ _ E) as Ht1.
   destruct (c_segs c) eqn:Es.
   - destruct (cread_drained _ _ _ _ _ Es E) as (-> & _ & ->).
-    destruct (c_term c); cbn [fst finished]; congruence.
+    destruct (c_term c); cbn [fst finished]; reflexivity.
   - assert (e = ENone) as -> by (eapply cread_pending; eauto; congruence).
     assert (weight c1 < weight c)%nat
       by (apply (cread_progress c ADBSZ d ENone c1); [pose proof ADBSZ_pos; lia|congruence|exact E]).
     repeat match goal with
            | |- context [if ?x then _ else _] => destruct x
            end; cbn [fst finished]; try reflexivity;
-      apply IH; rewrite ?cwrite_term, ?cwrite_weight; try congruence; lia.
+      apply IH; rewrite ?cwrite_weight; lia.
 Qed.
 
 Lemma handle_adb_ends fuel c :
-  c_term c <> TZero -> (weight c < fuel)%nat -> finished (h_out (handle_adb fuel c)) = true.
+  (weight c < fuel)%nat -> finished (h_out (handle_adb fuel c)) = true.
 Proof.
-  intros Ht Hw; unfold handle_adb.
+  intros Hw; unfold handle_adb.
   destruct (cread c ADBSZ) as [[d e] c1] eqn:E.
   pose proof (cread_term _ _ _ _ _ E) as Ht1. pose proof (cread_weight _ _ _ _ _ E) as Hw1.
   assert (e <> ENoProgress /\ e <> EBufFull) as [K1 K2] by (destruct (cread_err_kind _ _ _ _ _ E); auto).
@@ -709,66 +653,11 @@ Proof.
   destruct (_ <? 24)%nat; cbn [h_out finished]; try reflexivity.
   pose proof (adb_loop_ends fuel (upd4 [0; 0; 0; 0]%N d) [] (cwrite c1 113)) as H.
   destruct (adb_loop fuel (upd4 [0; 0; 0; 0]%N d) [] (cwrite c1 113)) as [o c2]; cbn [fst h_out] in *.
-  apply H; rewrite ?cwrite_term, ?cwrite_weight; try congruence; lia.
-Qed.
-
-Lemma adb_cmd_facts :
-  upd4 s_CNXN [] = s_CNXN /\ eqb_bytes s_CNXN s_OPEN = false /\ eqb_bytes s_CNXN s_WRTE = false /\
-  eqb_bytes s_CNXN s_OKAY = false /\ eqb_bytes s_CNXN s_CLSE = false.
-Proof. repeat split; reflexivity. Qed.
-
-(* once the datagram is consumed and "CNXN" is what is left in the buffer, every round of
-   the loop is one empty read and one 24-byte reply, for ever *)
-Lemma adb_loop_drained_zero fuel cb c :
-  c_segs c = [] -> c_term c = TZero ->
-  fst (adb_loop fuel s_CNXN cb c) = OutOfFuel /\
-  m_writes (c_m (snd (adb_loop fuel s_CNXN cb c))) = (m_writes (c_m c) + N.of_nat fuel)%N.
-Proof.
-  destruct adb_cmd_facts as (F0 & F1 & F2 & F3 & F4).
-  revert c; induction fuel as [|f IH]; intros c Hs Ht; cbn [adb_loop].
-  - split; [reflexivity|cbn; lia].
-  - unfold cread; rewrite Hs, Ht. rewrite F0, F1, F2, F3, F4.
-    match goal with |- context [adb_loop f s_CNXN cb ?c'] => destruct (IH c' eq_refl eq_refl) as [I1 I2] end.
-    split; [exact I1|]. rewrite I2. cbn [cwrite c_m m_writes tick_read]. lia.
-Qed.
-
-Lemma starts_with_firstn p l : starts_with p l = true -> firstn (length p) l = p.
-Proof.
-  revert l; induction p as [|x p IH]; intros l; [reflexivity|].
-  destruct l as [|y l]; cbn [starts_with length firstn]; [congruence|].
-  intros H; apply andb_true_iff in H; destruct H as [H1 H2].
-  apply N.eqb_eq in H1; subst; f_equal; auto.
-Qed.
-
-Lemma handle_adb_datagram_flood fuel d m :
-  starts_with s_CNXN d = true -> (24 <= length d)%nat -> (length d <= ADBSZ)%nat ->
-  h_out (handle_adb fuel (mkConn [d] TZero m)) = OutOfFuel /\
-  (N.of_nat fuel <= m_writes (c_m (h_conn (handle_adb fuel (mkConn [d] TZero m)))))%N.
-Proof.
-  intros Hp Hl Hsz; unfold handle_adb, cread; cbn [c_segs c_term c_m].
-  rewrite (firstn_all2 d Hsz), (skipn_all2 d Hsz).
-  assert (upd4 [0; 0; 0; 0]%N d = s_CNXN) as ->.
-  { unfold upd4. rewrite firstn_app.
-    replace (4 - length d)%nat with O by lia. cbn [firstn]. rewrite app_nil_r.
-    apply (starts_with_firstn s_CNXN d Hp). }
-  replace (eqb_bytes s_CNXN s_CNXN) with true by reflexivity.
-  replace (length d <? 24)%nat with false by (symmetry; apply Nat.ltb_ge; lia).
-  match goal with |- context [adb_loop fuel s_CNXN [] ?c'] =>
-    destruct (adb_loop_drained_zero fuel [] c' eq_refl eq_refl) as [I1 I2];
-    destruct (adb_loop fuel s_CNXN [] c') as [o c2] end.
-  cbn [fst snd h_out h_conn] in *. split; [exact I1|]. rewrite I2. lia.
+  apply H; rewrite ?cwrite_weight; lia.
 Qed.
 
 (* ------------------------------------------------------------------ *)
 (* resources *)
-
-Definition clean_svc (s : svc) : bool := match s with Ftp | Smtp => false | _ => true end.
-
-Ltac crush_res :=
-  repeat match goal with
-         | |- context [let '(_, _) := ?x in _] => destruct x
-         | |- context [match ?x with _ => _ end] => destruct x
-         end; reflexivity.
 
 Lemma handle_ntp_res fuel c : h_res (handle_ntp fuel c) = res0.
 Proof. unfold handle_ntp; destruct (io_copy fuel false c); reflexivity. Qed.
@@ -808,94 +697,205 @@ Proof.
   destruct (bread b2 512) as [[? e3] b3]. destruct e3; reflexivity.
 Qed.
 
-Lemma handle_clean_res s fuel c : clean_svc (sc_svc s) = true -> h_res (handle s fuel c) = res0.
-Proof.
-  destruct s as [sv udp v6 dial]; unfold handle; cbn [sc_svc sc_udp sc_v6 sc_dial].
-  destruct sv; cbn [clean_svc]; try congruence; intros _.
-  - apply handle_ntp_res.
-  - apply handle_echo_res.
-  - apply handle_dummy_res.
-  - apply handle_adb_res.
-  - apply handle_tftp_res.
-  - apply handle_memcached_res.
-Qed.
-
-Lemma handle_smtp_res fuel c : h_res (handle_smtp fuel c) = mkRes 1 0 0.
+Lemma handle_smtp_res fuel c : h_res (handle_smtp fuel c) = res0.
 Proof. unfold handle_smtp. destruct (smtp_loop _ _ _ _); reflexivity. Qed.
 
-(* ftp: nothing the control loop does ever gives back the pump goroutine or a listener *)
-Definition ftp_inv (s : ftp_st) : Prop :=
-  1 <= f_gor s /\ 0 <= f_lis s /\ 0 <= f_dirs s /\ 0 <= f_dconns s /\
-  match f_data s with DPassive d => connected d = true -> 1 <= f_dconns s | DNone => True end.
+Lemma handle_tftp_late fuel c : h_late (handle_tftp fuel c) = res0.
+Proof.
+  unfold handle_tftp. destruct (bread (new_reader c) 2) as [[pt e] b1].
+  destruct e; try reflexivity.
+  assert (forall k, h_late
+     match read_bytes fuel 0 [] b1 with
+     | RsOk _ ENone b2 =>
+         match read_bytes fuel 0 [] b2 with
+         | RsOk _ ENone b3 => mkH Returned (cwrite (b_c b3) k) res0
+         | RsOk _ _ b3 => mkH Returned (b_c b3) res0
+         | RsFuel => mkH OutOfFuel (b_c b2) res0
+         end
+     | RsOk _ _ b2 => mkH Returned (b_c b2) res0
+     | RsFuel => mkH OutOfFuel (b_c b1) res0
+     end = res0) as Htwo.
+  { intros k. destruct (read_bytes fuel 0 [] b1) as [? e1 b2|]; [|reflexivity].
+    destruct e1; try reflexivity.
+    destruct (read_bytes fuel 0 [] b2) as [? e2 b3|]; [|reflexivity]. destruct e2; reflexivity. }
+  destruct (_ =? 1)%N; [apply Htwo|]. destruct (_ =? 2)%N; [apply Htwo|].
+  destruct (_ =? 3)%N; [|reflexivity].
+  destruct (bread b1 2) as [[? e2] b2]. destruct e2; try reflexivity.
+  destruct (bread b2 512) as [[? e3] b3]. destruct e3; reflexivity.
+Qed.
+
+Lemma svc_eq_dec (a b : svc) : {a = b} + {a <> b}.
+Proof. decide equality. Qed.
+
+Lemma mkH_late o c r : h_late (mkH o c r) = res0.
+Proof. reflexivity. Qed.
+
+(* ftp: the counters are exactly what the data socket in hand accounts for, plus the pump *)
+Definition shape (d : dsock) : Z * Z * Z :=
+  match d with
+  | DNone => (0, 0, 0)
+  | DPassive DialNone => (1, 1, 0)       (* Accept goroutine, listener *)
+  | DPassive _ => (0, 0, 1)              (* accepted connection *)
+  end.
+
+Definition ftp_inv (s : ftp_st) : Prop := (f_gor s - 1, f_lis s, f_dconns s) = shape (f_data s).
 
 Lemma ftp_init_inv : ftp_inv ftp_init.
-Proof. unfold ftp_inv, ftp_init; cbn; repeat split; lia. Qed.
+Proof. reflexivity. Qed.
 
-Lemma open_passive_inv d s : ftp_inv s -> ftp_inv (open_passive d s) /\ f_lis (open_passive d s) = f_lis s + 1.
+Lemma close_data_inv s : ftp_inv s -> ftp_inv (close_data s) /\ f_data (close_data s) = DNone.
 Proof.
-  unfold ftp_inv, open_passive; intros (A & B & C & D & E).
-  destruct (connected d) eqn:Ec; cbn [f_gor f_lis f_dirs f_dconns f_data]; repeat split; try lia.
+  unfold ftp_inv, close_data. destruct (f_data s) as [|[]] eqn:E; cbn [shape]; intros H.
+  - rewrite E; auto.
+  - inversion H. cbn [set_data f_gor f_lis f_dconns f_data shape]. split; [f_equal; [f_equal|]; lia|reflexivity].
+  - inversion H. cbn [set_data f_gor f_lis f_dconns f_data shape]. split; [f_equal; [f_equal|]; lia|reflexivity].
+  - inversion H. cbn [set_data f_gor f_lis f_dconns f_data shape]. split; [f_equal; [f_equal|]; lia|reflexivity].
 Qed.
 
-Lemma close_data_inv s : ftp_inv s -> ftp_inv (close_data s) /\ f_lis (close_data s) = f_lis s.
+Lemma open_passive_inv d s : ftp_inv s -> ftp_inv (open_passive d s) /\ f_data (open_passive d s) = DPassive d.
 Proof.
-  unfold ftp_inv, close_data; intros (A & B & C & D & E).
-  destruct (f_data s) as [|[]]; cbn [f_gor f_lis f_dirs f_dconns f_data] in *; repeat split; try lia;
-    specialize (E eq_refl); lia.
+  intros H. destruct (close_data_inv s H) as [Hi Hd]. unfold open_passive.
+  unfold ftp_inv in Hi; rewrite Hd in Hi; cbn [shape] in Hi; inversion Hi.
+  unfold ftp_inv. destruct d; cbn [connected set_data f_gor f_lis f_dconns f_data shape];
+    (split; [f_equal; [f_equal|]; lia|reflexivity]).
 Qed.
 
-Lemma list_dir_inv s : ftp_inv s -> ftp_inv (list_dir s) /\ f_lis (list_dir s) = f_lis s.
-Proof. unfold ftp_inv, list_dir; intros (A & B & C & D & E); cbn; repeat split; auto; lia. Qed.
+Lemma set_user_inv s u r : ftp_inv s -> ftp_inv (set_user s u r).
+Proof. unfold ftp_inv, set_user; cbn; auto. Qed.
 
-Lemma set_user_inv s u r : ftp_inv s -> ftp_inv (set_user s u r) /\ f_lis (set_user s u r) = f_lis s.
-Proof. unfold ftp_inv, set_user; intros (A & B & C & D & E); cbn; repeat split; auto. Qed.
+Lemma pwait_inv s : ftp_inv s -> ftp_inv (pwait s).
+Proof. unfold ftp_inv, pwait; cbn; auto. Qed.
 
-Definition fstep_st (st : fstep) (s0 : ftp_st) : ftp_st :=
-  match st with FGo s | FClosed s | FBlock s | FPanic s => s | FOut => s0 end.
+(* every step keeps the invariant; QUIT leaves no data socket; the only panic (PASV on an
+   IPv6 local address) leaves an unconnected passive socket *)
+Definition fstep_ok (st : fstep) : Prop :=
+  match st with
+  | FGo s => ftp_inv s
+  | FClosed s => ftp_inv s /\ f_data s = DNone
+  | FPanic s => ftp_inv s /\ f_data s = DPassive DialNone
+  | FOut => True
+  end.
 
-Lemma ftp_cmd_inv v6 dial s line :
-  ftp_inv s ->
-  let st := fstep_st (fst (ftp_cmd v6 dial s line)) s in ftp_inv st /\ f_lis s <= f_lis st.
+Lemma ftp_cmd_inv v6 dial s line : ftp_inv s -> fstep_ok (fst (ftp_cmd v6 dial s line)).
 Proof.
   intros Hi; unfold ftp_cmd.
   destruct (parse_line line) as [c p].
   pose proof (open_passive_inv dial s Hi) as [O1 O2].
-  pose proof (open_passive_inv DialNone s Hi) as [O3 O4].
-  pose proof (close_data_inv s Hi) as [C1 C2].
-  pose proof (list_dir_inv s Hi) as [L1 L2].
-  pose proof (close_data_inv _ L1) as [C3 C4].
-  destruct (classify c); cbn [fst fstep_st];
+  pose proof (open_passive_inv DialNone s Hi) as O3.
+  pose proof (close_data_inv s Hi) as C1.
+  pose proof (close_data_inv (pwait s) (pwait_inv s Hi)) as [C2 _].
+  destruct (classify c); cbn [fst fstep_ok];
     repeat match goal with
            | |- context [if ?x then _ else _] => destruct x
-           end; cbn [fst fstep_st];
-    try (split; [assumption|lia]);
-    try (split; [apply set_user_inv; assumption|cbn; lia]).
-  destruct (f_data (list_dir s)) as [|[]]; cbn [fst fstep_st]; split; try assumption; lia.
+           end; cbn [fst fstep_ok]; auto using set_user_inv.
+  destruct C1 as [C1 _]. destruct (f_data s) as [|[]]; cbn [fst fstep_ok]; auto.
 Qed.
 
 Lemma ftp_loop_inv fuel v6 dial s b :
   ftp_inv s ->
-  let s' := snd (fst (ftp_loop fuel v6 dial s b)) in ftp_inv s' /\ f_lis s <= f_lis s'.
+  let '(o, s', _) := ftp_loop fuel v6 dial s b in
+  ftp_inv s' /\ (o = Returned -> f_data s' = DNone) /\ (o = Panicked -> f_data s' = DPassive DialNone).
 Proof.
-  revert s b; induction fuel as [|f IH]; intros s b Hi; cbn [ftp_loop]; [cbn; split; [assumption|lia]|].
-  destruct (read_bytes (S f) 10 [] b) as [line e b1|]; [|cbn; split; [assumption|lia]].
-  pose proof (close_data_inv s Hi) as [C1 C2].
-  destruct e; cbn [fst snd]; try (split; [assumption|lia]).
-  pose proof (ftp_cmd_inv v6 dial s line Hi) as Hc. cbv zeta in Hc.
-  destruct (ftp_cmd v6 dial s line) as [st k]; cbn [fst] in Hc.
-  destruct st; cbn [fstep_st] in Hc; cbn [fst snd]; try exact Hc.
-  destruct Hc as [H1 H2]. specialize (IH s0 (nwrites (N.to_nat k) b1) H1). cbv zeta in IH.
-  destruct IH as [I1 I2]. split; [exact I1|lia].
+  revert s b; induction fuel as [|f IH]; intros s b Hi; cbn [ftp_loop].
+  - repeat split; auto; congruence.
+  - destruct (read_bytes (S f) 10 [] b) as [line e b1|]; [|repeat split; auto; congruence].
+    pose proof (close_data_inv s Hi) as [C1 C2].
+    destruct e; try (repeat split; auto; congruence).
+    pose proof (ftp_cmd_inv v6 dial s line Hi) as Hc.
+    destruct (ftp_cmd v6 dial s line) as [st k]; cbn [fst] in Hc.
+    destruct st; cbn [fstep_ok] in Hc.
+    + apply IH; exact Hc.
+    + destruct Hc; repeat split; auto; congruence.
+    + destruct Hc; repeat split; auto; congruence.
+    + repeat split; auto; congruence.
 Qed.
 
-Lemma handle_ftp_keeps v6 dial fuel c :
-  let r := h_res (handle_ftp v6 dial fuel c) in 1 <= r_gor r /\ 0 <= r_lis r /\ r_lis r <= r_fds r.
+(* when the control loop returns nothing is held; after the recovered panic exactly the
+   unconnected passive socket is, and it sits on its Accept deadline *)
+Lemma handle_ftp_res v6 dial fuel c :
+  let h := handle_ftp v6 dial fuel c in
+  (h_out h = Returned -> h_res h = res0 /\ h_late h = res0) /\
+  (h_out h = Panicked -> h_res h = mkRes 1 1 1 /\ h_late h = mkRes 1 1 1).
 Proof.
   unfold handle_ftp, handle_ftp_st.
-  pose proof (ftp_loop_inv fuel v6 dial ftp_init (bwrite (new_reader c) 0) ftp_init_inv) as H. cbv zeta in H.
-  destruct (ftp_loop fuel v6 dial ftp_init (bwrite (new_reader c) 0)) as [[o s] b]; cbn [fst snd] in H.
-  destruct H as [(A & B & C & D & E) _]. cbn [h_res ftp_res r_gor r_lis r_fds].
-  destruct o; repeat split; lia.
+  pose proof (ftp_loop_inv fuel v6 dial ftp_init (bwrite (new_reader c) 0) ftp_init_inv) as H.
+  destruct (ftp_loop fuel v6 dial ftp_init (bwrite (new_reader c) 0)) as [[o s] b].
+  destruct H as (Hi & Hr & Hp). cbn [h_out h_res h_late]. unfold ftp_inv in Hi.
+  split; intros Ho; subst o.
+  - rewrite (Hr eq_refl) in Hi; cbn [shape] in Hi. injection Hi as A B C.
+    unfold ftp_res, ftp_late. rewrite B, C. replace (f_gor s - 1) with 0 by lia. split; reflexivity.
+  - rewrite (Hp eq_refl) in Hi; cbn [shape] in Hi. injection Hi as A B C.
+    unfold ftp_res, ftp_late. rewrite (Hp eq_refl), B, C. replace (f_gor s - 1) with 1 by lia. split; reflexivity.
+Qed.
+
+Lemma handle_ftp_kept v6 dial fuel c :
+  finished (h_out (handle_ftp v6 dial fuel c)) = true -> kept (handle_ftp v6 dial fuel c) = res0.
+Proof.
+  pose proof (handle_ftp_res v6 dial fuel c) as [Hr Hp]. cbv zeta in Hr, Hp.
+  unfold kept. destruct (h_out (handle_ftp v6 dial fuel c)); cbn [finished]; try congruence; intros _.
+  - destruct (Hr eq_refl) as [-> ->]; reflexivity.
+  - destruct (Hp eq_refl) as [-> ->]; reflexivity.
+Qed.
+
+(* every other service holds nothing when Handle is over, whatever happened *)
+Lemma handle_other_res s fuel c :
+  sc_svc s <> Ftp -> h_res (handle s fuel c) = res0 /\ h_late (handle s fuel c) = res0.
+Proof.
+  destruct s as [sv udp v6 dial]; unfold handle; cbn [sc_svc sc_udp sc_v6 sc_dial].
+  destruct sv; try congruence; intros _.
+  - split; [apply handle_ntp_res|]. unfold handle_ntp; destruct (io_copy _ _ _); reflexivity.
+  - split; [apply handle_echo_res|]. unfold handle_echo; destruct (io_copy _ _ _); reflexivity.
+  - split; [apply handle_dummy_res|]. unfold handle_dummy; destruct (dummy_loop _ _); reflexivity.
+  - split; [apply handle_adb_res|]. unfold handle_adb. destruct (cread c ADBSZ) as [[d e] c1].
+    destruct e; try reflexivity. destruct (eqb_bytes _ _); try reflexivity.
+    destruct (_ <? 24)%nat; try reflexivity. destruct (adb_loop _ _ _ _); reflexivity.
+  - split; [apply handle_tftp_res|]. apply handle_tftp_late.
+  - split; [apply handle_memcached_res|]. unfold handle_memcached. destruct (mc_loop _ _ _ _); reflexivity.
+  - split; [apply handle_smtp_res|]. unfold handle_smtp. destruct (smtp_loop _ _ _ _); reflexivity.
+Qed.
+
+(* ------------------------------------------------------------------ *)
+(* dispatch level *)
+
+Lemma fuel_for_ok c : (weight c + 3 <= fuel_for c)%nat /\ (weight c < fuel_for c)%nat.
+Proof. unfold fuel_for; lia. Qed.
+
+(* every handler is over within [fuel_for c]: it returned, or panicked and was recovered -
+   unless the dialogue leaves the modelled fragment of ftp / smtp *)
+Lemma handle_ends s c :
+  h_out (handle s (fuel_for c) c) <> Unmodelled -> finished (h_out (handle s (fuel_for c) c)) = true.
+Proof.
+  destruct (fuel_for_ok c) as [Hf Hw].
+  destruct s as [sv udp v6 dial]; unfold handle; cbn [sc_svc sc_udp sc_v6 sc_dial]. destruct sv; intros Hu.
+  - unfold handle_ntp. pose proof (io_copy_returns (fuel_for c) false c Hw).
+    destruct (io_copy (fuel_for c) false c); cbn [fst h_out mkH] in *; subst; reflexivity.
+  - unfold handle_echo. pose proof (io_copy_returns (fuel_for c) true c Hw).
+    destruct (io_copy (fuel_for c) true c); cbn [fst h_out mkH] in *; subst; reflexivity.
+  - rewrite handle_dummy_returns; auto.
+  - apply handle_adb_ends; exact Hw.
+  - rewrite handle_tftp_returns; auto.
+  - rewrite handle_memcached_returns; auto.
+  - pose proof (handle_ftp_ends v6 dial (fuel_for c) c Hf) as [H|[H|H]]; rewrite H in *; auto; congruence.
+  - pose proof (handle_smtp_ends (fuel_for c) c Hf) as [H|H]; rewrite H in *; auto; congruence.
+Qed.
+
+Lemma handle_kept s c :
+  h_out (handle s (fuel_for c) c) <> Unmodelled -> kept (handle s (fuel_for c) c) = res0.
+Proof.
+  intros Hu. pose proof (handle_ends s c Hu) as Hfin.
+  destruct (svc_eq_dec (sc_svc s) Ftp) as [E|E].
+  - unfold handle in *; rewrite E in *. apply handle_ftp_kept; exact Hfin.
+  - destruct (handle_other_res s (fuel_for c) c E) as [H1 H2]. unfold kept; rewrite H1, H2; reflexivity.
+Qed.
+
+(* a handler that returned (no panic) holds nothing at all at that moment *)
+Lemma handle_returned_clean s c :
+  h_out (handle s (fuel_for c) c) = Returned -> h_res (handle s (fuel_for c) c) = res0.
+Proof.
+  intros Ho. destruct (svc_eq_dec (sc_svc s) Ftp) as [E|E].
+  - unfold handle in *; rewrite E in *.
+    destruct (handle_ftp_res (sc_v6 s) (sc_dial s) (fuel_for c) c) as [Hr _]. apply Hr; exact Ho.
+  - apply handle_other_res; exact E.
 Qed.
 
 (* ------------------------------------------------------------------ *)
@@ -912,118 +912,24 @@ Proof.
 Qed.
 
 Lemma history_repeat s c n :
-  history s (repeat c n) = res_scale (Z.of_nat n) (h_res (handle s (fuel_for c) c)).
+  history s (repeat c n) = res_scale (Z.of_nat n) (kept (handle s (fuel_for c) c)).
 Proof.
   induction n as [|n IH]; cbn [repeat history].
   - unfold res_scale, res0; f_equal.
   - rewrite IH. unfold res_add, res_scale; cbn [r_gor r_lis r_fds]. f_equal; lia.
 Qed.
 
-Lemma history_clean s cs : clean_svc (sc_svc s) = true -> history s cs = res0.
+Definition in_fragment (s : scn) (c : conn) : Prop := h_out (handle s (fuel_for c) c) <> Unmodelled.
+
+Lemma history_zero s cs : Forall (in_fragment s) cs -> history s cs = res0.
 Proof.
-  intros Hc; induction cs as [|c cs IH]; cbn [history]; [reflexivity|].
-  rewrite IH, (handle_clean_res s _ c Hc); reflexivity.
+  induction 1 as [|c cs Hc _ IH]; cbn [history]; [reflexivity|].
+  rewrite IH, (handle_kept s c Hc); reflexivity.
 Qed.
 
-Lemma history_smtp u v6 d cs : history (mkScn Smtp u v6 d) cs = mkRes (Z.of_nat (length cs)) 0 0.
+Lemma history_repeat_zero s c n : in_fragment s c -> history s (repeat c n) = res0.
 Proof.
-  induction cs as [|c cs IH]; cbn [history length]; [reflexivity|].
-  rewrite IH. unfold handle; cbn [sc_svc]. rewrite handle_smtp_res.
-  unfold res_add; cbn [r_gor r_lis r_fds]. f_equal; lia.
-Qed.
-
-Lemma history_ftp u v6 d cs :
-  let r := history (mkScn Ftp u v6 d) cs in Z.of_nat (length cs) <= r_gor r /\ 0 <= r_lis r /\ r_lis r <= r_fds r.
-Proof.
-  induction cs as [|c cs IH]; cbn [history length]; [cbn; lia|].
-  cbv zeta in IH. unfold handle; cbn [sc_svc sc_v6 sc_dial].
-  pose proof (handle_ftp_keeps v6 d (fuel_for c) c) as H. cbv zeta in H.
-  unfold res_add; cbn [r_gor r_lis r_fds]. lia.
-Qed.
-
-(* ------------------------------------------------------------------ *)
-(* dispatch level *)
-
-Lemma fuel_for_ok c : (weight c + 3 <= fuel_for c)%nat /\ (weight c < fuel_for c)%nat.
-Proof. unfold fuel_for; lia. Qed.
-
-Definition copy_svc (s : svc) : bool := match s with Ntp | Echo => true | _ => false end.
-Definition bufio_svc (s : svc) : bool := match s with Dummy | Tftp => true | _ => false end.
-
-Lemma handle_copy_spins s fuel c :
-  copy_svc (sc_svc s) = true -> c_term c = TZero ->
-  h_out (handle s fuel c) = OutOfFuel /\
-  m_reads (c_m (h_conn (handle s fuel c))) = (m_reads (c_m c) + N.of_nat fuel)%N.
-Proof.
-  destruct s as [sv u v d]; unfold handle; cbn [sc_svc]; destruct sv; cbn [copy_svc]; try congruence; intros _ Ht.
-  - unfold handle_ntp. pose proof (io_copy_zero_spins fuel false c Ht). pose proof (io_copy_zero_reads fuel false c Ht).
-    destruct (io_copy fuel false c); cbn [fst snd h_out h_conn] in *; auto.
-  - unfold handle_echo. pose proof (io_copy_zero_spins fuel true c Ht). pose proof (io_copy_zero_reads fuel true c Ht).
-    destruct (io_copy fuel true c); cbn [fst snd h_out h_conn] in *; auto.
-Qed.
-
-Lemma handle_copy_returns s c :
-  copy_svc (sc_svc s) = true -> c_term c <> TZero ->
-  h_out (handle s (fuel_for c) c) = Returned /\
-  (m_timeouts (c_m (h_conn (handle s (fuel_for c) c))) <= m_timeouts (c_m c) + 1)%N.
-Proof.
-  destruct (fuel_for_ok c) as [_ Hf].
-  destruct s as [sv u v d]; unfold handle; cbn [sc_svc]; destruct sv; cbn [copy_svc]; try congruence; intros _ Ht.
-  - unfold handle_ntp. pose proof (io_copy_returns _ false c Ht Hf). pose proof (io_copy_one_deadline (fuel_for c) false c).
-    destruct (io_copy (fuel_for c) false c); cbn [fst snd h_out h_conn] in *; auto.
-  - unfold handle_echo. pose proof (io_copy_returns _ true c Ht Hf). pose proof (io_copy_one_deadline (fuel_for c) true c).
-    destruct (io_copy (fuel_for c) true c); cbn [fst snd h_out h_conn] in *; auto.
-Qed.
-
-Lemma handle_bufio_returns s c :
-  bufio_svc (sc_svc s) = true -> h_out (handle s (fuel_for c) c) = Returned.
-Proof.
-  destruct (fuel_for_ok c) as [Hf _].
-  destruct s as [sv u v d]; unfold handle; cbn [sc_svc sc_udp]; destruct sv; cbn [bufio_svc]; try congruence; intros _.
-  - apply handle_dummy_returns; exact Hf.
-  - apply handle_tftp_returns; exact Hf.
-Qed.
-
-Lemma handle_memcached_scn_returns s c :
-  sc_svc s = Memcached -> c_term c <> TZero -> h_out (handle s (fuel_for c) c) = Returned.
-Proof.
-  intros Es Ht; unfold handle; rewrite Es. apply handle_memcached_returns; [exact Ht|apply fuel_for_ok].
-Qed.
-
-Definition finding_class (s : scn) (c : conn) : Prop :=
-  (c_term c = TZero /\ (sc_svc s = Ntp \/ sc_svc s = Echo \/ sc_svc s = Adb \/ sc_svc s = Memcached)) \/
-  sc_svc s = Ftp \/ sc_svc s = Smtp.
-
-Lemma outside_findings s c :
-  ~ finding_class s c ->
-  finished (h_out (handle s (fuel_for c) c)) = true /\ h_res (handle s (fuel_for c) c) = res0.
-Proof.
-  intros Hn. unfold finding_class in Hn.
-  assert (clean_svc (sc_svc s) = true) as Hc by (destruct (sc_svc s); cbn; auto; exfalso; apply Hn; auto).
-  split; [|apply handle_clean_res; exact Hc].
-  destruct (sc_svc s) eqn:Es; cbn in Hc; try congruence.
-  - assert (c_term c <> TZero) as Ht by (intros Ht; apply Hn; auto 8).
-    destruct (handle_copy_returns s c) as [-> _]; [rewrite Es; reflexivity|exact Ht|reflexivity].
-  - assert (c_term c <> TZero) as Ht by (intros Ht; apply Hn; auto 8).
-    destruct (handle_copy_returns s c) as [-> _]; [rewrite Es; reflexivity|exact Ht|reflexivity].
-  - rewrite (handle_bufio_returns s c); [reflexivity|rewrite Es; reflexivity].
-  - assert (c_term c <> TZero) as Ht by (intros Ht; apply Hn; auto 8).
-    unfold handle; rewrite Es. apply handle_adb_ends; [exact Ht|apply fuel_for_ok].
-  - rewrite (handle_bufio_returns s c); [reflexivity|rewrite Es; reflexivity].
-  - assert (c_term c <> TZero) as Ht by (intros Ht; apply Hn; auto 8).
-    rewrite (handle_memcached_scn_returns s c Es Ht); reflexivity.
-Qed.
-
-Lemma handle_ftp_scn_ends s c :
-  sc_svc s = Ftp -> h_out (handle s (fuel_for c) c) <> OutOfFuel.
-Proof. intros Es; unfold handle; rewrite Es. apply handle_ftp_ends, fuel_for_ok. Qed.
-
-Lemma handle_smtp_scn_ends s c :
-  sc_svc s = Smtp ->
-  (h_out (handle s (fuel_for c) c) = Returned \/ h_out (handle s (fuel_for c) c) = Unmodelled) /\
-  h_res (handle s (fuel_for c) c) = mkRes 1 0 0.
-Proof.
-  intros Es; unfold handle; rewrite Es. split; [apply handle_smtp_ends, fuel_for_ok|apply handle_smtp_res].
+  intros Hc. rewrite history_repeat, (handle_kept s c Hc). unfold res_scale, res0; cbn; f_equal; lia.
 Qed.
 
 (* ------------------------------------------------------------------ *)
